@@ -84,7 +84,11 @@ func newScratch(tag string) (*scratch, error) {
 func (s *scratch) remove() { os.RemoveAll(s.dir) }
 
 func (s *scratch) build(mode string) error {
-	cmd := exec.Command(filepath.Join(verifDir, "sim", "mkscratch.sh"), s.dir, mode)
+	simDir := filepath.Join(verifDir, "sim")
+	if d := os.Getenv("VERIF_SIM"); d != "" {
+		simDir = d // development: another copy of the simulator sources (mkscratch.sh honours the same variable)
+	}
+	cmd := exec.Command(filepath.Join(simDir, "mkscratch.sh"), s.dir, mode)
 	cmd.Stdout = os.Stderr
 	cmd.Stderr = os.Stderr
 	return cmd.Run()
@@ -258,6 +262,9 @@ func runBatch(s *scratch, spec *propSpec, b budget, tier string, seed uint64, tr
 		}
 		args = append(args, b.extra...)
 		env := []string{"GOMAXPROCS=2"}
+		if i%4 == 3 {
+			env = append(env, fmt.Sprintf("VERIF_ONECPU=%d", i)) // a quarter of the workers (and what they start) see a one-CPU machine
+		}
 		if b.race {
 			env = append(env, "GORACE=halt_on_error=0 exitcode=66 history_size=7 atexit_sleep_ms=0 log_path="+filepath.Join(s.dir, "race", fmt.Sprintf("w%d", i)))
 		}
@@ -266,6 +273,28 @@ func runBatch(s *scratch, spec *propSpec, b budget, tier string, seed uint64, tr
 			defer wg.Done()
 			errs[i] = runWorker(bin, env, args, filepath.Join(s.dir, fmt.Sprintf("worker-%d.log", i)), b.maxWall*3+5*time.Minute)
 		}(i, args, env)
+	}
+	// one more worker: the 32-bit build repeats the seeded runs of the first worker (no race detector there)
+	if bin32 := filepath.Join(s.dir, "simworker.386"); fileExists(bin32) && chunk > 0 {
+		i := w
+		w++
+		errs = append(errs, nil)
+		outs = append(outs, filepath.Join(s.dir, fmt.Sprintf("res-%s-%d.json", spec.id, i)))
+		to := chunk
+		if to > b.runs {
+			to = b.runs
+		}
+		args := []string{"batch", "-prop", spec.id, "-tier", tier, "-seed", fmt.Sprint(seed), "-from", "0", "-to", fmt.Sprint(to),
+			"-out", outs[i], "-replaydir", rdir, "-maxwall", b.maxWall.String(), "-tree", tree}
+		if sysTotal > 0 {
+			args = append(args, "-sysfrom", "0", "-systo", "0")
+		}
+		args = append(args, b.extra...)
+		wg.Add(1)
+		go func() {
+			defer wg.Done()
+			errs[i] = runWorker(bin32, []string{"GOMAXPROCS=2"}, args, filepath.Join(s.dir, fmt.Sprintf("worker-%d.log", i)), b.maxWall*3+5*time.Minute)
+		}()
 	}
 	wg.Wait()
 	m := newMerged()
@@ -413,12 +442,15 @@ func processOne(s *scratch, spec *propSpec, b budget, bin, sig string, cands []s
 		})
 		f := cands[0]
 		rf, _ := detsim.ReadReplay(f)
+		if rf.Arch == "386" {
+			bin = filepath.Join(s.dir, "simworker.386") // found by the 32-bit worker: confirmed and minimised on the same build
+		}
 		isRace := rf.Violation.Class == "race"
 		// a disagreement between the long-lived reference process and a young one depends on what the long-lived one has
 		// evaluated before, i.e. on the preceding runs of the worker: like a state-dependent race it may need them as warm-up
 		stateDep := rf.Violation.Class == "reference-unstable"
 		raceEnv := func(tag string) []string {
-			if !b.race {
+			if !b.race || rf.Arch == "386" {
 				return nil
 			}
 			return []string{"GORACE=halt_on_error=0 exitcode=66 history_size=7 atexit_sleep_ms=0 log_path=" + filepath.Join(s.dir, "race", fmt.Sprintf("p%d-%s", idx, tag))}
@@ -514,4 +546,9 @@ func processOne(s *scratch, spec *propSpec, b budget, bin, sig string, cands []s
 		}
 		return confirmed{sig: sig, path: final, detail: d, note: note}, nil
 	}
+}
+
+func fileExists(p string) bool {
+	_, err := os.Stat(p)
+	return err == nil
 }
